@@ -7,6 +7,7 @@ CONSTANTS
   MaxVer = 2
   MaxInst = 3
   MaxSubs = 1
+  AllowCtxCancel = TRUE
   CloseSelfOnly = FALSE
 SPECIFICATION Spec
 INVARIANTS EndsForAReason Converges FirstIsFull NoUpdateAfterUnsub EndsAtMostOnce AllEndAfterClose MapComplete LoggerAlternates LoggerPaired LoggerMatchesMap LimitHolds
